@@ -115,7 +115,7 @@ class PathState:
 
 class Exec:
     def __init__(self, f, call_handler, havoc=None, word_args=(), unroll=False, arg_consts=None, int_cells=None, auto=False,
-                 split_max=8, starts=None, pre_conds=(), callee_writes=None):
+                 split_max=8, starts=None, pre_conds=(), callee_writes=None, word_phis=None, fresh_per_entry=False):
         """call_handler(ex, path, inst, callee, argvalues) -> result value or None
         havoc(ex, path, header) is called when a fresh iteration starts at a loop header"""
         self.f = f
@@ -133,6 +133,8 @@ class Exec:
         self.split_max = split_max
         self.starts = starts            # list of (label, setup(path)) initial classes
         self.pre_conds = list(pre_conds)
+        self.word_phis = word_phis          # predicate(phi inst, init value) -> loop-carried value is data (bit word), not a length
+        self.fresh_per_entry = fresh_per_entry
         self.callee_writes = callee_writes or {}   # callee -> {arg index: (offset, nbytes)} it may write (else: whole object)
 
     # -- value helpers ---------------------------------------------------------
@@ -207,6 +209,15 @@ class Exec:
         if o is None:
             symoff = repr(off)
             p.events.append(("load-sym", I.id if I else None, obj, symoff, nbytes))
+        if symoff is None and self.int_cells and self.int_cells(obj, o, nbytes):
+            lfc = p.lfmem.get((obj, o, nbytes))
+            if lfc is None:
+                lfc = Lf.s(("fld", obj, o, p.objgen.get(obj, 0)))
+                p.lfmem[(obj, o, nbytes)] = lfc
+            c_ = self.subst(p, lfc).const()
+            if c_ is not None:
+                return gf2.const_word(c_ & ((1 << (8 * nbytes)) - 1), 8 * nbytes)
+            return gf2.sym_word(("lfcell", repr(self.subst(p, lfc))), 8 * nbytes)
         bits = []
         for k in range(nbytes):
             if symoff is not None:
@@ -319,7 +330,7 @@ class Exec:
                             if pb == pred:
                                 q.env[("init", I.id)] = self.val(p, tuple(inc))
                     self._finish(q, ("loop-entry", b))
-                    if b not in started_heads:
+                    if b not in started_heads or self.fresh_per_entry:
                         started_heads.add(b)
                         n = q.clone()
                         n.events = []
@@ -333,7 +344,7 @@ class Exec:
                             ty = I.get("ty") or ""
                             if ty.endswith("*"):
                                 n.env[("i", I.id)] = Lf.s(("hdp", I.id))
-                            elif is_word(q.env.get(("init", I.id))) and I.bits:
+                            elif I.bits and (is_word(q.env.get(("init", I.id))) or (self.word_phis and self.word_phis(I, q.env.get(("init", I.id))))):
                                 n.env[("i", I.id)] = gf2.sym_word(("hdw", I.id), I.bits)
                             else:
                                 n.env[("i", I.id)] = Lf.s(("hd", I.id))
@@ -792,7 +803,7 @@ class Exec:
                     p.env[k] = a
                 else:
                     p.events.append(("narrowing", I.id, w, repr(self.subst(p, a))))
-                    p.env[k] = Lf.s(("trunc", I.id))
+                    p.env[k] = Lf.s(("mod", w, repr(self.subst(p, a))))
             else:
                 p.env[k] = a
             return
